@@ -361,8 +361,30 @@ def check_model_classes():
     return fails, n
 
 
+LOADED_TOO = ("M1", "M5", "M6")  # scenarios whose programs are also exported after a save/load cycle
+
+
+def check_model_loaded(h):
+    """The same HUGR after Hugr.load_json(h.to_json()): port counts of a loaded graph come from its links, the
+    export must still list the ports of the signatures."""
+    from hugr.hugr import Hugr
+
+    try:
+        h2 = Hugr.load_json(h.to_json())
+    except Exception:  # noqa: BLE001
+        return []  # C02's business
+    return [(f"{sig}:loaded", msg) for sig, msg in check_model(h2)]
+
+
+def ladder_judge(h):
+    return check_model(h) + check_model_loaded(h)
+
+
 def oracle(sc, ctx, program):
-    return [(sig, f"{msg} | program={program}") for sig, msg in check_model(ctx.hugr)]
+    out = check_model(ctx.hugr)
+    if sc.name in LOADED_TOO:
+        out = out + check_model_loaded(ctx.hugr)
+    return [(sig, f"{msg} | program={program}") for sig, msg in out]
 
 
 def run(tier: str, seed: int) -> Result:
@@ -370,7 +392,7 @@ def run(tier: str, seed: int) -> Result:
     r = e2.explore(SCENARIOS, oracle, PLAN[tier])
     for sig, msg, case in r.fails:
         col.add(sig, msg, case)
-    n_ladder = ladder.run_ladder(tier, check_model, col, hosts=("fn",))
+    n_ladder = ladder.run_ladder(tier, ladder_judge, col, hosts=("fn",))
     cf, n_cls = check_model_classes()
     for sig, msg in cf:
         col.add(sig, msg, {"model_classes": True})
@@ -399,7 +421,7 @@ def run(tier: str, seed: int) -> Result:
 
 def replay(case) -> list[Violation]:
     if "ladder" in case:
-        return [Violation(s, m, case) for s, m in ladder.replay_ladder(case, check_model)]
+        return [Violation(s, m, case) for s, m in ladder.replay_ladder(case, ladder_judge)]
     if "model_classes" in case:
         return [Violation(s, m, case) for s, m in check_model_classes()[0]]
     sc = SCENARIOS[case["scenario"]]
